@@ -871,7 +871,17 @@ func NewLockResultCommandDataFromString(data string, commandStage uint8, command
 
 func (self *LockResultCommandData) GetValueOffset() int {
 	if self.DataFlag&LOCK_DATA_FLAG_CONTAINS_PROPERTY != 0 {
-		return (int(self.Data[6]) | (int(self.Data[7]) << 8)) + 8
+		if len(self.Data) < 8 {
+			return len(self.Data)
+		}
+		valueOffset := (int(self.Data[6]) | (int(self.Data[7]) << 8)) + 8
+		if valueOffset > len(self.Data) {
+			return len(self.Data)
+		}
+		return valueOffset
+	}
+	if len(self.Data) < 6 {
+		return len(self.Data)
 	}
 	return 6
 }
@@ -924,6 +934,9 @@ func (self *LockResultCommandData) GetArrayValue() [][]byte {
 			index += 4
 			continue
 		}
+		if valueLen < 0 || index+4+valueLen > len(self.Data) {
+			break
+		}
 		values = append(values, self.Data[index+4:index+4+valueLen])
 		index += valueLen + 4
 	}
@@ -942,13 +955,22 @@ func (self *LockResultCommandData) GetKVValue() map[string][]byte {
 			index += 4
 			continue
 		}
+		if keyLen < 0 || index+4+keyLen > len(self.Data) {
+			break
+		}
 		key := string(self.Data[index+4 : index+4+keyLen])
 		index += keyLen + 4
+		if index+4 > len(self.Data) {
+			break
+		}
 
 		valueLen := int(uint32(self.Data[index]) | uint32(self.Data[index+1])<<8 | uint32(self.Data[index+2])<<16 | uint32(self.Data[index+3])<<24)
 		if valueLen == 0 {
 			index += 4
 			continue
+		}
+		if valueLen < 0 || index+4+valueLen > len(self.Data) {
+			break
 		}
 		values[key] = self.Data[index+4 : index+4+valueLen]
 		index += valueLen + 4
@@ -961,9 +983,18 @@ func (self *LockResultCommandData) GetDataProperties() []*LockCommandDataPropert
 		return nil
 	}
 	properties := make([]*LockCommandDataProperty, 0)
+	if len(self.Data) < 8 {
+		return properties
+	}
 	propertyLen, index := int(self.Data[6])|int(self.Data[7])<<8, 0
 	for index < propertyLen {
+		if 11+index > len(self.Data) {
+			break
+		}
 		propertyCode, valueLen := self.Data[8+index], int(self.Data[9+index])|int(self.Data[10+index])<<8
+		if 11+index+valueLen > len(self.Data) {
+			break
+		}
 		if valueLen > 0 {
 			properties = append(properties, NewLockCommandDataProperty(propertyCode, self.Data[11+index:11+index+valueLen]))
 		} else {
@@ -978,9 +1009,18 @@ func (self *LockResultCommandData) GetDataProperty(code uint8) *LockCommandDataP
 	if self.DataFlag&LOCK_DATA_FLAG_CONTAINS_PROPERTY == 0 {
 		return nil
 	}
+	if len(self.Data) < 8 {
+		return nil
+	}
 	propertyLen, index := int(self.Data[6])|int(self.Data[7])<<8, 0
 	for index < propertyLen {
+		if 11+index > len(self.Data) {
+			break
+		}
 		propertyCode, valueLen := self.Data[8+index], int(self.Data[9+index])|int(self.Data[10+index])<<8
+		if 11+index+valueLen > len(self.Data) {
+			break
+		}
 		if code == propertyCode {
 			if valueLen > 0 {
 				return NewLockCommandDataProperty(code, self.Data[11+index:11+index+valueLen])
